@@ -1,3 +1,4 @@
+import OpacusLean.Generated.SamplerArith
 import OpacusLean.Model.Sampler
 import OpacusLean.Model.Binary64
 import Mathlib.Data.List.Basic
@@ -266,5 +267,18 @@ example : 100 % lenDP .asCoded 7 ≠ 0 ∧ ebs .asCoded 100 7 = 14 := by decide 
 example : ebs .asCoded 64 16 = 4 := by decide +kernel
 
 end rates
+
+/-! ## The tie to the source: shard-size arithmetic re-translated on every run -/
+set_option linter.unusedTactic false in
+set_option linter.unreachableTactic false in
+/-- the tie to the source: the statements of `DistributedUniformWithReplacementSampler.__init__` that set
+`self.num_samples`, re-translated on every run, compute the model's `numSamples` -/
+theorem generated_num_samples_eq_model (N W rank : Nat) :
+    Opacus.Generated.Sampler.numSamples N W rank = numSamples N W rank := by
+  simp only [Opacus.Generated.Sampler.numSamples, numSamples]
+  first
+    | rfl
+    | (split_ifs <;> omega)
+    | (split <;> simp_all <;> omega)
 
 end Opacus.C09
